@@ -168,6 +168,21 @@ func VH_C02_complete(n int, extra int, cache int, ed int) {
 	vassert(err == nil, "create-qc")
 	vassert(qc.View() == vB && qc.BlockHash() == B.Hash(), "qc-names-block-and-view")
 	vassert(qc.Signature().Participants().Len() == cnt, "qc-participants")
+	// a second valid certificate for the same block, from another quorum (replicas may hold
+	// different certificates for one block); every other timeout attests it
+	qc2 := qc
+	if n > cnt && nondetBool("signers-hold-different-qcs-for-the-block") {
+		var pcs2 []hotstuff.PartialCert
+		for i := 0; i < cnt; i++ {
+			pc, err := auths[vhRot(start+1, i, n)].CreatePartialCert(B)
+			vassert(err == nil, "create-partial-cert")
+			pcs2 = append(pcs2, pc)
+		}
+		q2, err := auths[1].CreateQuorumCert(B, pcs2)
+		vassert(err == nil, "create-qc")
+		qc2 = q2
+		vcover("two-qcs-for-one-block")
+	}
 	// timeouts -> TC and AggQC
 	tview := hotstuff.View(nondetU64("tview"))
 	vassume(tview >= 1)
@@ -176,7 +191,11 @@ func VH_C02_complete(n int, extra int, cache int, ed int) {
 		s := vhRot(start, i, n)
 		vs, err := auths[s].Sign(tview.ToBytes())
 		vassert(err == nil, "sign-view")
-		tm := hotstuff.TimeoutMsg{ID: hotstuff.ID(s), View: tview, ViewSignature: vs, SyncInfo: hotstuff.NewSyncInfoWith(qc)}
+		mine := qc
+		if i%2 == 1 {
+			mine = qc2
+		}
+		tm := hotstuff.TimeoutMsg{ID: hotstuff.ID(s), View: tview, ViewSignature: vs, SyncInfo: hotstuff.NewSyncInfoWith(mine)}
 		ms, err := auths[s].Sign(tm.ToBytes())
 		vassert(err == nil, "sign-timeout-message")
 		tm.MsgSignature = ms
@@ -193,7 +212,7 @@ func VH_C02_complete(n int, extra int, cache int, ed int) {
 		high, err := auths[s].VerifyAggregateQC(agg)
 		vassert(err == nil, "honest-aggqc-verifies-everywhere")
 		if err == nil {
-			vassert(high.Equals(qc), "aggqc-high-qc-is-the-attested-qc")
+			vassert(high.Equals(qc) || high.Equals(qc2), "aggqc-high-qc-is-the-attested-qc")
 		}
 	}
 }
